@@ -87,7 +87,13 @@ func vInPool(x any) bool { return false }
 
 // vAbstractBytes returns a slice of symbolic length whose content is never
 // enumerated; natively it is a zero-filled slice.
-func vAbstractBytes(n int) []byte { return make([]byte, n) }
+func vAbstractBytes(n int) []byte {
+	b := make([]byte, n)
+	for i := range b {
+		b[i] = byte(i*31 + 7)
+	}
+	return b
+}
 
 func vPick(quick, thorough int) int {
 	if vTier() > 0 {
@@ -115,3 +121,24 @@ func vSplit(x uint64) uint64 { return x }
 // vEnv32 is an arbitrary value chosen by the environment (not by the replay
 // tape); it only exists under the executor.
 func vEnv32() uint32 { return 0 }
+
+// vChunkIs reports whether chunk is body[off:off+len(chunk)]. Under the
+// executor the chunk aliases the body (vStubDataSetDataAlias), so this is
+// pointer identity; natively it compares contents.
+func vChunkIs(chunk, body []byte, off int) bool {
+	if off < 0 || off+len(chunk) > len(body) {
+		return false
+	}
+	if len(chunk) == 0 {
+		return true
+	}
+	if vSymbolic() {
+		return &chunk[0] == &body[off]
+	}
+	for i := range chunk {
+		if chunk[i] != body[off+i] {
+			return false
+		}
+	}
+	return true
+}
